@@ -146,6 +146,8 @@ func runC09(r *vhlib.Run) {
 	// lifecycle histories of flate.Reader (Read / Close / Reset in any order over scripted sources)
 	// against the implementation-level model, per call (Flate/ImplLife.v)
 	wfllife(r)
+	// lifecycle histories of bzip2.Reader against the implementation-level model, per call (Bzip2/ImplLife.v)
+	wbzlife(r)
 	// meta.Reader itself against its implementation-level model, per call (Meta/ReaderImpl.v)
 	runWMETAR(r)
 	nValid, maxPlain := 14, 1500
